@@ -30,7 +30,14 @@ PROP = [  # (subject fragment, property)
  ("test the write bit of the mode", "C13"), ("/FRAMEOFFSET 0 for an included", "C07"), ("after an SIE write the I/O pointer", "C03"),
  ("position is that of the write side", "C03"), ("empty root namespace", "C09"), ("_GD_UpdateAliases must re-resolve", "C09"),
  ("step back over a partly written", "C18"),
- ("imaginary-part shortcut", "C10"), ("must not index beyond the end of the CARRAY", "C05"), ("scalar field equal to zero", "C05"),
+ ("imaginary-part shortcut", "C10"),
+ ("_GD_GzipSize leaked", "C05"), ("also for unaligned starts", "C01"), ("zero-sample request", "C01"), ("only in the public calls", "C16"),
+ ("purely real field ends where", "C16"), ("gd_eof must flush pending", "C16"), ("must read CARRAY elements back", "C20"),
+ ("_GD_MakeTempFile must stop retrying", "C12"), ("sign of a floating-point literal -0", "C07"), ("below INT64_MIN", "C08"),
+ ("strtod reports ERANGE", "C08"), ("keep the tokeniser's error", "C08"), ("LINCOM field count is optional", "C08"),
+ ("range check must not overflow int", "C08"), ("CARRAY slice bounds", "C10"), ("SARRAY slice bounds", "C10"),
+ ("_GD_FindOpenFields indexed", "C10"), ("_GD_CheckParent must not step", "C10"), ("must re-resolve the aliases whose chain", "C15"),
+ ("parent code with a leading dot", "C15"), ("must not index beyond the end of the CARRAY", "C05"), ("scalar field equal to zero", "C05"),
  ("MPLEX look-back must restore", "C02"), ("invalidate the MPLEX start-value cache", "C02"), ("failing out-of-place write must report", "C14"), ("close failures while replacing", "C14"),
 ]
 out = subprocess.run(["git", "-C", os.environ.get("VERIF_REPO", "/repo"), "log", "--reverse", "--format=%h %s"], stdout=subprocess.PIPE).stdout.decode()
